@@ -252,7 +252,7 @@ func buildIntrinsics() map[string]Intrinsic {
 			return m.tf.Const(64, 0)
 		}
 		t[p+"vGhostElapsed"] = func(m *Machine, fr *Frame, fn *ssa.Function, a []Value) Value {
-			return m.tf.Const(64, uint64(m.clock))
+			return m.clock
 		}
 		t[p+"vGhostGoroutines"] = func(m *Machine, fr *Frame, fn *ssa.Function, a []Value) Value {
 			n := 0
@@ -887,30 +887,48 @@ func addAtomicIntrinsics(t map[string]Intrinsic) {
 
 const ghostEpochUnix = 1_700_000_000
 
-func (m *Machine) timeValue(clock int64) Value {
+// wallFields: seconds and nanoseconds of the wall clock reading. With a symbolic ghost clock the wall reading is
+// frozen at the epoch (dividing a symbolic 64-bit value by 1e9 is out of every solver's reach): only the monotonic
+// reading advances. Go compares, subtracts and waits on monotonic readings whenever both operands carry one, which
+// every time value made here does.
+func (m *Machine) wallFields(clock *Term) (sec, nsec int64) {
+	if clock.IsConst() {
+		return clock.SVal() / 1e9, clock.SVal() % 1e9
+	}
+	m.res.Stubs["symbolic ghost clock: wall-clock reading frozen, monotonic reading symbolic"]++
+	return 0, 0
+}
+
+func (m *Machine) timeValue(clock *Term) Value {
 	const hasMonotonic = uint64(1) << 63
-	sec := int64(ghostEpochUnix) + clock/1e9 + 2682288000
-	nsec := clock % 1e9
-	wall := hasMonotonic | uint64(sec)<<30 | uint64(nsec)
-	return StructV{m.tf.Const(64, wall), m.tf.Const(64, uint64(clock+1)), (*Value)(nil)}
+	s, ns := m.wallFields(clock)
+	sec := int64(ghostEpochUnix) + s + 2682288000
+	wall := hasMonotonic | uint64(sec)<<30 | uint64(ns)
+	return StructV{m.tf.Const(64, wall), m.tf.Add(clock, m.tf.Const(64, 1)), (*Value)(nil)}
 }
 
 func addTimeIntrinsics(t map[string]Intrinsic) {
 	t["time.now"] = func(m *Machine, fr *Frame, fn *ssa.Function, a []Value) Value {
-		return TupleV{m.tf.Const(64, uint64(int64(ghostEpochUnix)+m.clock/1e9)), m.tf.Const(32, uint64(m.clock%1e9)), m.tf.Const(64, uint64(m.clock+1))}
+		s, ns := m.wallFields(m.clock)
+		return TupleV{m.tf.Const(64, uint64(int64(ghostEpochUnix)+s)), m.tf.Const(32, uint64(ns)), m.tf.Add(m.clock, m.tf.Const(64, 1))}
 	}
 	t["time.runtimeNano"] = func(m *Machine, fr *Frame, fn *ssa.Function, a []Value) Value {
-		return m.tf.Const(64, uint64(m.clock+1))
+		return m.tf.Add(m.clock, m.tf.Const(64, 1))
 	}
 	t["time.Sleep"] = func(m *Machine, fr *Frame, fn *ssa.Function, a []Value) Value {
-		d := m.concreteInt(fr, a[0].(*Term), "Sleep duration")
-		if d <= 0 {
+		d := a[0].(*Term)
+		if m.Decide(fr, m.tf.Sle(d, m.tf.Const(64, 0))) {
 			return nil
 		}
 		g := m.cur
-		until := m.clock + d
-		for m.clock < until {
-			m.block(g, &waitState{sleepUntil: until, what: "time.Sleep"})
+		until, never := m.timeAfter(fr, d)
+		if never {
+			m.block(g, &waitState{what: "time.Sleep(forever)", custom: func() bool { return false }})
+			return nil
+		}
+		w := &waitState{sleepUntil: until, what: "time.Sleep"}
+		for !m.sleepOver(w) {
+			m.block(g, w)
 			g.wait = nil
 		}
 		return nil
@@ -922,14 +940,12 @@ func addTimeIntrinsics(t map[string]Intrinsic) {
 		return cell, (*cell).(StructV)
 	}
 	t["time.AfterFunc"] = func(m *Machine, fr *Frame, fn *ssa.Function, a []Value) Value {
-		d := m.concreteInt(fr, a[0].(*Term), "AfterFunc duration")
 		cell, _ := newTimerObj(m, fn)
-		tm := m.addTimer(d, a[1], nil, cell)
+		tm := m.addTimer(fr, a[0].(*Term), a[1], nil, cell)
 		m.side("timer")[cell] = tm
 		return cell
 	}
 	t["time.NewTimer"] = func(m *Machine, fr *Frame, fn *ssa.Function, a []Value) Value {
-		d := m.concreteInt(fr, a[0].(*Term), "NewTimer duration")
 		cell, sv := newTimerObj(m, fn)
 		st := under(derefType(fn.Signature.Results().At(0).Type())).(*types.Struct)
 		var ch *ChanV
@@ -939,14 +955,13 @@ func addTimeIntrinsics(t map[string]Intrinsic) {
 				sv[i] = ch
 			}
 		}
-		tm := m.addTimer(d, nil, ch, cell)
+		tm := m.addTimer(fr, a[0].(*Term), nil, ch, cell)
 		m.side("timer")[cell] = tm
 		return cell
 	}
 	t["time.After"] = func(m *Machine, fr *Frame, fn *ssa.Function, a []Value) Value {
-		d := m.concreteInt(fr, a[0].(*Term), "After duration")
 		ch := m.newChan(1, under(fn.Signature.Results().At(0).Type()).(*types.Chan).Elem(), "time.After")
-		m.addTimer(d, nil, ch, nil)
+		m.addTimer(fr, a[0].(*Term), nil, ch, nil)
 		return ch
 	}
 	t["(*time.Timer).Stop"] = func(m *Machine, fr *Frame, fn *ssa.Function, a []Value) Value {
@@ -963,15 +978,8 @@ func addTimeIntrinsics(t map[string]Intrinsic) {
 		if tm == nil {
 			m.runtimePanic(fr, "time: Reset called on uninitialized Timer")
 		}
-		d := m.concreteInt(fr, a[1].(*Term), "Timer.Reset duration")
 		was := tm.active
-		if d < 0 {
-			d = 0
-		}
-		tm.when = m.clock + d
-		if tm.when < m.clock {
-			tm.when = int64(^uint64(0) >> 1)
-		}
+		tm.when, tm.never = m.timeAfter(fr, a[1].(*Term))
 		tm.active = true
 		return m.tf.Bool(was)
 	}
@@ -1733,4 +1741,15 @@ func (m *Machine) splitByDigits(fr *Frame, t *Term, signed bool) {
 		}
 		pow *= 10
 	}
+}
+
+// sleepOver tells whether a sleeper's instant has been reached: chosen by advanceClock, or (all-concrete) passed.
+func (m *Machine) sleepOver(w *waitState) bool {
+	if w.woken {
+		return true
+	}
+	if w.sleepUntil.IsConst() && m.clock.IsConst() {
+		return m.clock.SVal() >= w.sleepUntil.SVal()
+	}
+	return false
 }
